@@ -46,6 +46,8 @@ type MuxPair struct {
 	AddrA    *net.UDPAddr
 	AddrB    *net.UDPAddr
 	stopOnce sync.Once
+	downOnce sync.Once
+	after    func() // tears down what lies under the muxers (stack pairs)
 }
 
 // NewMuxPair creates a server-role muxer A and a client-role muxer B.
@@ -56,6 +58,62 @@ func NewMuxPair(r *Run, n *Net, timeout time.Duration) *MuxPair {
 	p.A = tubes.Server(p.EA, &tubes.Config{Timeout: timeout, Log: NewLogEntry()})
 	p.B = tubes.Client(p.EB, &tubes.Config{Timeout: timeout, Log: NewLogEntry()})
 	return p
+}
+
+// NewStackPair is NewMuxPair over the REAL transport: a transport server and client on the simulated
+// network complete a handshake (the network is still faithful at that point), and the muxers run on the
+// server's Handle and on the Client.  Everything the network does to the datagrams afterwards meets the
+// transport first (authentication, replay window, peer address) and only then the tubes.
+func NewStackPair(r *Run, n *Net, prop string) *MuxPair {
+	hidden := r.Intn("stack", 3) == 0
+	srv := StartServer(r, n, ServerOpts{Hidden: hidden, HSTimeout: 3 * time.Second})
+	reg := NewHandleRegistry(r, srv.Srv)
+	tc := NewTClient(r, n, srv, ClientOpts{Hidden: hidden, HSTimeout: 3 * time.Second})
+	if err := tc.C.Handshake(); err != nil {
+		r.Violate(prop+"/nofault/stack-handshake-failed", "%v", err)
+		return nil
+	}
+	h := reg.For(tc.C, 5*time.Second)
+	if h == nil {
+		r.Violate(prop+"/nofault/stack-accept-failed", "no handle")
+		return nil
+	}
+	p := &MuxPair{N: n, AddrA: srv.Addr, AddrB: tc.Addr, EA: srv.EP, EB: tc.EP}
+	p.A = tubes.Server(h, &tubes.Config{Log: NewLogEntry()})
+	p.B = tubes.Client(tc.C, &tubes.Config{Log: NewLogEntry()})
+	p.after = func() {
+		tc.C.Close()
+		srv.Srv.Close()
+	}
+	return p
+}
+
+// NewPairMaybeStack returns a stack pair in one run out of oneIn (handshake on a momentarily faithful
+// network, whatever faults the scenario has configured already), a plain pair otherwise.
+func NewPairMaybeStack(r *Run, n *Net, oneIn int, class string) *MuxPair { // class = property id for violation classes
+	if r.Intn("stack", oneIn) != 0 {
+		r.SetCfg("stack", false)
+		return NewMuxPair(r, n, 0)
+	}
+	r.SetCfg("stack", true)
+	saved := n.Cfg
+	n.Cfg = NetCfg{Latency: saved.Latency}
+	mp := NewStackPair(r, n, class)
+	n.Cfg = saved
+	if mp != nil {
+		r.Probe("muxers-on-real-transport")
+	}
+	return mp
+}
+
+// Teardown closes what lies under the muxers of a stack pair (idempotent; nothing for a plain pair).
+func (p *MuxPair) Teardown(r *Run) {
+	p.downOnce.Do(func() {
+		if p.after != nil {
+			WithTimeout(r, time.Minute, p.after)
+			time.Sleep(time.Second)
+		}
+	})
 }
 
 // StopBoth stops both muxers concurrently and reports whether both returned within d.
@@ -75,6 +133,7 @@ func (p *MuxPair) StopBoth(r *Run, d time.Duration) bool {
 		case <-t.C:
 			ok = false
 		}
+		p.Teardown(r)
 	})
 	return ok
 }
@@ -101,7 +160,18 @@ func scTubeStream(r *Run) {
 	nTubes := 1 + r.Intn("cfg", 3)
 	r.SetCfg("faultfree", faultFree)
 	r.SetCfg("tubes", nTubes)
-	mp := NewMuxPair(r, n, 0)
+	// one run in six has the whole stack: the muxers run on a real transport session
+	stack := r.Intn("stack", 6) == 0
+	r.SetCfg("stack", stack)
+	var mp *MuxPair
+	if stack {
+		if mp = NewStackPair(r, n, "C08"); mp == nil {
+			return
+		}
+		r.Probe("muxers-on-real-transport")
+	} else {
+		mp = NewMuxPair(r, n, 0)
+	}
 
 	c := &n.Cfg
 	c.Latency = time.Duration(1+r.Intn("cfg", 40)) * time.Millisecond
